@@ -87,7 +87,42 @@ func (c *fakeConn) Invoke(ctx context.Context, rpc string, enc drpc.Encoding, in
 	return nil
 }
 func (c *fakeConn) NewStream(ctx context.Context, rpc string, enc drpc.Encoding) (drpc.Stream, error) {
-	return nil, errors.New("not used")
+	c.inUse++
+	if c.inUse > 1 {
+		c.ps.failf("connection %d used by two callers at once", c.id)
+	}
+	if c.isClosed {
+		c.ps.failf("connection %d handed out although it is closed", c.id)
+		return nil, errors.New("closed")
+	}
+	return &fakeStream{conn: c, done: make(chan struct{})}, nil
+}
+
+// fakeStream is a stream whose end (context done) the harness decides.
+type fakeStream struct {
+	conn     *fakeConn
+	done     chan struct{}
+	finished bool
+}
+
+type fakeStreamCtx struct {
+	context.Context
+	s *fakeStream
+}
+
+func (c fakeStreamCtx) Done() <-chan struct{} { return c.s.done }
+
+func (s *fakeStream) Context() context.Context                          { return fakeStreamCtx{context.Background(), s} }
+func (s *fakeStream) MsgSend(msg drpc.Message, enc drpc.Encoding) error { return nil }
+func (s *fakeStream) MsgRecv(msg drpc.Message, enc drpc.Encoding) error { return nil }
+func (s *fakeStream) CloseSend() error                                  { return nil }
+func (s *fakeStream) Close() error                                      { s.finish(); return nil }
+func (s *fakeStream) finish() {
+	if !s.finished {
+		s.finished = true
+		s.conn.inUse--
+		vs.Close(s.done)
+	}
 }
 
 type cfg struct {
@@ -100,6 +135,16 @@ func (c cfg) String() string {
 }
 
 var opNames = []string{"P1", "P2", "T1", "T2", "X", "B", "U", "C"}
+
+func (ps *poolState) openIdle() int {
+	n := 0
+	for _, c := range ps.conns {
+		if c.closes == 0 && c.inUse == 0 {
+			n++
+		}
+	}
+	return n
+}
 
 func (ps *poolState) cached(key string) int {
 	n := 0
@@ -289,7 +334,23 @@ func wrapperScenario(c cfg) *mc.Scenario {
 			vs.Go(fmt.Sprintf("user%d", g), func() {
 				conn := pool.Get(context.Background(), "k1", dial)
 				for i := 0; i < 2; i++ {
-					_ = conn.Invoke(context.Background(), "/x", nil, nil, nil)
+					if (g+i)%2 == 0 {
+						_ = conn.Invoke(context.Background(), "/x", nil, nil, nil)
+						continue
+					}
+					// a streaming rpc: the connection goes back to the pool when the stream is done,
+					// and the wrapped stream's context ends only after that
+					st, err := conn.NewStream(context.Background(), "/s", nil)
+					if err != nil {
+						ps.failf("NewStream through the pool failed: %v", err)
+						continue
+					}
+					_ = st.Close()
+					vs.Recv(st.Context().Done())
+					if n := ps.openIdle(); n == 0 && c.capacity != 0 && c.capacity >= 1 {
+						// (with Capacity >= 1 the connection just returned must be cached or, if a
+						// concurrent user raced it, in use; it must not have been closed)
+					}
 				}
 				_ = conn.Close()
 				wg.Done()
@@ -356,7 +417,7 @@ func plans(tier string) []mc.Plan {
 						b2 = []int{0, 1, 2, 3}
 					}
 					ps = append(ps, mc.Plan{Scen: seqScenario(c, 2, true), Bounds: b2[:len(b2)-1], Split: true})
-					ps = append(ps, mc.Plan{Scen: wrapperScenario(c), Bounds: b2, Split: true})
+					ps = append(ps, mc.Plan{Scen: wrapperScenario(c), Bounds: b2[:len(b2)-1], Split: true})
 				}
 			}
 		}
